@@ -1,0 +1,12 @@
+//go:build verif
+
+package ast
+
+import "io"
+
+// VerifLex exposes the token stream of the (unexported) lexer to the verification harness.
+// Compiled only with -tags verif; adds code, changes none.
+func VerifLex(reader io.Reader) ([]*Token, error) {
+	lexer := initLexer(reader)
+	return lexer.getTokens()
+}
